@@ -11,14 +11,14 @@ import (
 // Garbage-producing and garbage-referencing kinds per data type.
 var (
 	gcObj  = []string{"o.set1", "o.del1", "o.setobj1", "o.setin1", "o.setarr1", "o.pushin1", "o.delroot", "o.newroot"}
-	gcArr  = []string{"a.push", "a.insL", "a.ins0", "a.del0", "a.delL", "a.mv0L", "a.mvL0", "a.mvFrontL", "a.mvLast0", "a.set0", "a.setL", "a.pushobj", "a.setinL"}
+	gcArr  = []string{"a.push", "a.insL", "a.ins0", "a.del0", "a.delL", "a.mv0L", "a.mvL0", "a.mvFrontL", "a.mvLast0", "a.mvBef0L", "a.mvBefL0", "a.set0", "a.setL", "a.pushobj", "a.setinL"}
 	gcTxt  = []string{"t.ins0", "t.insM", "t.insE", "t.delF", "t.delM", "t.delB", "t.delAll", "t.repM", "t.styF", "t.styB", "t.insAttrM"}
 	gcTree = []string{"tr.insT0", "tr.insT1", "tr.insTE", "tr.delT0", "tr.delTAll0", "tr.insP0", "tr.insPE", "tr.delP0", "tr.delPL", "tr.repP0", "tr.sty0", "tr.rmsty0"}
 )
 
 var (
 	gcObjCore  = []string{"o.set1", "o.del1", "o.setobj1", "o.setin1", "o.setarr1", "o.pushin1", "o.delroot"}
-	gcArrCore  = []string{"a.push", "a.insL", "a.delL", "a.del0", "a.mv0L", "a.mvLast0", "a.setL", "a.setinL", "a.pushobj"}
+	gcArrCore  = []string{"a.push", "a.insL", "a.delL", "a.del0", "a.mv0L", "a.mvLast0", "a.mvFrontL", "a.mvBefL0", "a.setL", "a.setinL", "a.pushobj"}
 	gcTxtCore  = []string{"t.ins0", "t.insE", "t.delF", "t.delB", "t.repM", "t.styF", "t.insAttrM"}
 	gcTreeCore = []string{"tr.insT0", "tr.insT1", "tr.delT0", "tr.insP0", "tr.delP0", "tr.repP0", "tr.sty0", "tr.rmsty0"}
 )
@@ -69,6 +69,25 @@ func c03Scenarios(tier string) []*hist.Scenario {
 	for _, f := range core {
 		for _, op := range f.ops {
 			add(f.name, f.init, []string{op}, 2, 0, 2, 4, never)
+		}
+	}
+	// content inserted into an element that a peer concurrently removes, and a
+	// follow-up edit of the inserter anchored on its own insert (made before it
+	// learns of the removal): the born-dead node must outlive that edit. One
+	// client removes, the other inserts twice, both role assignments, K3 Y3
+	// (1.9k histories each). Found by a sub-agent while it looked for a C03 seed
+	// (the tree defect repaired in /repo): triples of kinds were not in the quick tier.
+	for _, del := range []string{"tr.delP0", "tr.repP0"} {
+		for swap := 0; swap < 2; swap++ {
+			pc := [][]string{{del}, {"tr.insT1", "tr.insT2"}}
+			if swap == 1 {
+				pc[0], pc[1] = pc[1], pc[0]
+			}
+			out = append(out, &hist.Scenario{
+				Name: fmt.Sprintf("c03/tree/removed-parent/%s/swap%d/N2K3Y3", del, swap),
+				N:    2, Init: []string{"init.tr"}, Alphabet: []string{del, "tr.insT1", "tr.insT2"}, PerClient: pc, K: 3, Y: 3,
+				Cfg: hist.Config{Threshold: hist.Big, Interval: hist.Big},
+			})
 		}
 	}
 	if tier == "quick" {
